@@ -43,6 +43,27 @@ def show(ctx, term):
     return out
 
 
+def eval_list(ctx, tag, fn, cases, enc, shard=10, timeout=900):
+    """Evaluate the Coq function `fn : case -> N` on every case (sharded, in parallel); returns the list of numbers
+    or None (+ a broken obligation) when a shard does not evaluate."""
+    files = {}
+    for k in range(0, len(cases), shard):
+        rows = ";\n".join(enc(c) for c in cases[k:k + shard])
+        files["%s_%d" % (tag, k // shard)] = (xc.COQ_HEADER + "\nDefinition cases_ := [\n%s\n].\n"
+                                              "Eval vm_compute in (map %s cases_).\n" % (rows, fn))
+    res = ctx.coq_eval_many(files, timeout=timeout)
+    out = []
+    for k in range(0, len(cases), shard):
+        rc, txt = res["%s_%d" % (tag, k // shard)]
+        m = re.search(r"=\s*\[(.*?)\]\s*:\s*list N", txt, re.S)
+        n = len(cases[k:k + shard])
+        if rc != 0 or not m or len(re.findall(r"\d+", m.group(1))) != n:
+            ctx.obligation("correspondence:%s:model-evaluates" % tag, False, txt[-1200:])
+            return None
+        out += [int(x) for x in re.findall(r"\d+", m.group(1))]
+    return out
+
+
 # ------------------------------------------------------------------------------- corpus of schedules (always run)
 def corpus(rng):
     """(name, world, pre, setup, reqs): regression pairs, each run under every placement."""
@@ -275,7 +296,7 @@ def gen_stress(rng, procs=False):
     setup = xc.gen_setup(rng, rng.choice([0, 1, 2, 2, 2]))
     nthreads, per = rng.choice(THREAD_SHAPES[:6] if procs else THREAD_SHAPES)
     reads = 0.3 if nthreads * per <= 10 else 0.6
-    hd = rng.random() < 0.1
+    hd = rng.random() < 0.12 and nthreads * per <= 8      # a home DELETE disables the reads-first reduction: small histories only
     threads = [[xc.gen_request(rng, None, allow_home_delete=hd, reads=reads) for _ in range(per)] for _ in range(nthreads)]
     return world, pre, setup, threads
 
@@ -291,15 +312,12 @@ def overlap_pairs(ops):
 
 def judge_histories(ctx, tag, hists):
     """hists: (descr, world, pre, setup, result-dict).  Linearisability decided in Coq."""
-    cases = [((w, pre, setup, r["ops"], r["store"]), 0) for d, w, pre, setup, r in hists]
-    bad = ctx.diff_cases(tag + "_lin", xc.COQ_HEADER, "lin_case", cases, xc.enc_hist_case, lambda o: "0%N", "N.eqb", shard=12)
-    if bad is None:
+    cases = [(w, pre, setup, r["ops"], r["store"]) for d, w, pre, setup, r in hists]
+    vs = eval_list(ctx, tag + "_lin", "lin_case", cases, xc.enc_hist_case, shard=10)
+    if vs is None:
         return
-    verdicts = {}
-    for i in bad:
-        out = show(ctx, "lin_case %s" % xc.enc_hist_case(cases[i][0]))
-        m = re.search(r"=\s*(\d+)", out)
-        verdicts[i] = int(m.group(1)) if m else 2
+    verdicts = {i: v for i, v in enumerate(vs) if v != 0}
+    bad = sorted(verdicts)
     inconclusive = [i for i, v in verdicts.items() if v == 3]
     hard = [i for i, v in verdicts.items() if v == 2]
     split = [i for i, v in verdicts.items() if v == 1]
@@ -326,23 +344,24 @@ def history_replay(d, w, pre, setup, r, **kw):
     return dict(kind="history", descr=d, world=x_hcheck.world_json(w), predefined=pre, setup=setup,
                 operations=[dict(user=o[0], request=o[1], invoked_us=(o[2] - t0) // 1000, returned_us=(o[3] - t0) // 1000, response=repr(o[4]))
                             for o in sorted(r["ops"], key=lambda o: o[2])],
-                store=repr(r["store"]), note="timing dependent: ./check C09 --replay re-runs the same requests with the same thread layout "
-                "a number of times and reports how often the history is not linearisable", **kw)
+                store=repr(r["store"]), layout=r.get("layout"),
+                note="timing dependent: ./check C09 --replay re-runs the same requests with the same thread / process layout 30 times "
+                "and reports how often the recorded history is not linearisable", **kw)
 
 
 def part_stress(ctx, et):
     rng = ctx.rng
     hists = []
-    t_end = time.time() + ctx.n(25, 500)
+    t_end = time.time() + ctx.n(25, 420) * max(1.0, SCALE)
     n = 0
-    target = int(ctx.n(140, 4000) * SCALE)
+    target = int(ctx.n(140, 3000) * SCALE)
     while n < target and time.time() < t_end:
         world, pre, setup, threads = gen_stress(rng)
         stype = "multifilesystem" if n % 2 == 0 else "multifilesystem_nolock"
         seed = rng.randrange(10**6)
         r = xc.run_stress_threads(world, pre, setup, threads, et, seed, stype, perturb=rng.choice([(0.1, 800), (0.25, 1500), (0.05, 3000)]))
         d = "threads=%d x %d, %s, seed=%d" % (len(threads), len(threads[0]), stype, seed)
-        r["layout"] = dict(threads=[len(t) for t in threads], storage_type=stype, seed=seed)
+        r["layout"] = dict(kind="threads", threads=threads, storage_type=stype, seed=seed)
         hists.append((d, world, pre, setup, r))
         ov = overlap_pairs(r["ops"])
         ctx.case(("stress", d, repr(threads)), nontrivial=ov > 0)
@@ -372,6 +391,7 @@ def part_procs(ctx, et):
         if r["errors"]:
             ctx.obligation("multi-process-driver-ran", False, repr(r["errors"])[:500])
             continue
+        r["layout"] = dict(kind="processes", processes=layout, seed=seed)
         hists.append((d, world, pre, setup, r))
         ov = overlap_pairs(r["ops"])
         ctx.case(("procs", d, repr(layout)), nontrivial=ov > 0)
@@ -442,7 +462,31 @@ def replay(ctx, path):
         print("same outcome as recorded:", same)
         return 1 if (lost or (same and data.get("signature") != xc.KNOWN_SPLIT and not lost and "lost" not in rp)) else 0
     if rp.get("kind") == "history":
-        print(json.dumps(rp, indent=1)[:6000])
-        return 0
+        pre = [(n, t, [tuple(kv) for kv in props]) for n, t, props in rp["predefined"]]
+        setup = x_hcheck.detuple_hist(rp["setup"])
+        lay = rp.get("layout") or {}
+        print("recorded history:")
+        for o in rp["operations"]:
+            print("  [%6d..%6d us] user %s %s -> %s" % (o["invoked_us"], o["returned_us"], o["user"], o["request"], o["response"]))
+        print("final store:", rp["store"])
+        if not lay:
+            return 0
+        from vlib import core
+        with core.coq_lock():
+            core.make(["Model/ConcHandlers.vo", "Model/HandlersCanon.vo"])
+        hists = []
+        for k in range(30):
+            if lay["kind"] == "threads":
+                threads = [x_hcheck.detuple_hist(t) for t in lay["threads"]]
+                r = xc.run_stress_threads(world, pre, setup, threads, et, lay["seed"] + k, lay["storage_type"])
+            else:
+                procs = [[x_hcheck.detuple_hist(t) for t in p] for p in lay["processes"]]
+                r = xc.run_stress_procs(world, pre, setup, procs, et, lay["seed"] + k)
+            hists.append(("rerun %d" % k, world, pre, setup, r))
+        judge_histories(ctx, "replay", hists)
+        print("re-runs:", ctx.extra.get("stress", {}).get("replay"))
+        for v in ctx.violations[:1]:
+            print("again:", v["what"])
+        return 1 if any(v["signature"] != xc.KNOWN_SPLIT for v in ctx.violations) else 0
     print(json.dumps(data, indent=1)[:4000])
     return 0
